@@ -91,9 +91,14 @@ class CacheRoles:
                             self.table = base.id
                             if isinstance(x, ast.Name):
                                 self.event_var = x.id
-        missing = [k for k in ('lock', 'cache', 'wrapped') if getattr(self, k) is None]
+        missing = [k for k in ('cache', 'wrapped') if getattr(self, k) is None]
         if missing:
             raise AnalysisError(f'cache roles not found: {missing}')
+        # the creation lock is a *protective construct*: its absence is reported by the rules
+        # (C01-R1 ...), it is not a vanished subject
+        self.has_lock = self.lock is not None
+        if self.lock is None:
+            self.lock = '<no threading lock>'
         self.has_table = self.table is not None
         # events
         T, C = self.table, self.cache
@@ -198,6 +203,11 @@ def _publish_roles(ctx: Ctx, r: CacheRoles) -> None:
 def _require_table(ctx: Ctx, r: CacheRoles, rule: str) -> bool:
     """The in-flight table is the protective construct of the cache: if it is
     absent, the rules that need it report a violation, not a vanished anchor."""
+    if not r.has_lock:
+        ctx.violation(rule, 'creation lock', f'{FILE}:{r.impl.lineno}',
+                      'no threading.Lock()/RLock() guards the in-flight table: two threads can both decide to compute',
+                      construct=construct_key(r.impl.qualname, 'no threading lock'))
+        return False
     if r.has_table and r.MARK and r.event_var:
         return True
     ctx.violation(rule, 'in-flight table', f'{FILE}:{r.wrapper.lineno}',
@@ -407,6 +417,34 @@ def c01(ctx: Ctx) -> None:
                   detail_ok='PUBLISH precedes UNMARK on the success path',
                   detail_bad='the marker can be removed before the result is visible in the cache',
                   witness=render(g, w), construct=construct_key(r.wrapper.qualname, 'UNMARK before PUBLISH'))
+    # R9: what the marker says
+    ctx.rule('C01-R9', 'the marker stored at MARK names the running loop of this activation and an Event created for this computation', 1)
+    for m in r.MARK:
+        v = m.meta.get('value')
+        pth = find_path(g, [g.entry], [m]) or []
+        from ..sym import expand_inlined
+        env = sym_env(g, pth)
+        sv = subst(expand_inlined(g, v), env) if v is not None else None
+        ok = False
+        why = 'marker is not a (loop, event) tuple'
+        if isinstance(sv, ast.Tuple) and len(sv.elts) == 2:
+            lp, ev = sv.elts
+            lp_ok = isinstance(lp, ast.Call) and g.res.path(lp.func) == 'asyncio.get_running_loop'
+            if isinstance(lp, ast.Name):
+                defs = [n for n in g.nodes if n.kind == 'store_name' and n.meta['name'] == lp.id]
+                lp_ok = bool(defs) and all(isinstance(d.meta.get('value'), ast.Call) and
+                                          g.res.path(d.meta['value'].func) == 'asyncio.get_running_loop' for d in defs)
+            ev_ok = isinstance(ev, ast.Call) and g.res.path(ev.func) == 'asyncio.Event'
+            # the Event must be created after the decision (not reused from the looked-up marker)
+            ev_stores = [n for n in g.nodes if n.kind == 'store_name' and n.meta['name'] == r.event_var
+                         and isinstance(n.meta.get('value'), ast.Call)]
+            fresh = any(find_path(g, [n], [m], edge_ok=lambda e: e.label != 'exc') is not None and r.locked(n) for n in ev_stores)
+            ok = lp_ok and ev_ok and fresh
+            why = f'loop element ok={lp_ok}, event element ok={ev_ok}, created under the lock on the way to MARK={fresh}'
+        ctx.check('C01-R9', f'MARK value {norm(sv) if sv is not None else None}', _loc(g, m), ok,
+                  'waiters are pointed at the loop that really computes and at a fresh event',
+                  f'the marker points waiters at the wrong loop or a stale event ({why}): they bridge to a dead loop / are never woken',
+                  construct=construct_key(r.wrapper.qualname, 'marker content', sv))
     # R7
     rule_owner_only_unmark(ctx, r, 'C01-R7')
     # R8
